@@ -2892,7 +2892,12 @@ class BaseInterpreter(Generic[TContext, TEvent]):
                     delay_ms,
                 )
                 continue
-            for t_def in transitions:
+            # ⏲️ ONE timer per delay, however many guarded alternatives it
+            #    lists: they all share the event type `after.<delay>.<id>`, and
+            #    each expiry selects the first alternative whose guard passes.
+            #    A timer per alternative delivered N expiries, so the winning
+            #    alternative ran N times in one activation.
+            for t_def in transitions[:1]:
                 delay_sec = float(resolved_ms) / 1000.0
                 after_event = AfterEvent(type=t_def.event)
                 self._after_timer(delay_sec, after_event, owner_id=state.id)
